@@ -30,8 +30,34 @@ type entry struct {
 	Name   []byte // v, ascii
 	Chars  []rune // v, ucs2: scalar values (may hold surrogates in non-WF recipes)
 	Value  []byte // v,d: value ; x: body
+	Nested *recipe // v,d: the value is itself a store (then Value is ignored)
 	Ext    *ext
 	Next   int // relative offset of the successor, -1 = none ; x: raw 24-bit value
+}
+
+// value is the value bytes: nested stores are serialized first.
+func (e *entry) value() []byte {
+	if e.Nested != nil {
+		return e.Nested.ser()
+	}
+	return e.Value
+}
+
+// valueWire: hex bytes, or "n" + hex of the wire form of the nested recipe.
+func (e *entry) valueWire() string {
+	if e.Nested != nil {
+		return "n" + core.Hex([]byte(e.Nested.wire()))
+	}
+	return core.Hex(e.Value)
+}
+
+func (r *recipe) hasNested() bool {
+	for i := range r.Entries {
+		if r.Entries[i].Nested != nil {
+			return true
+		}
+	}
+	return false
 }
 
 type recipe struct {
@@ -84,7 +110,7 @@ func (e *entry) content() []byte {
 	if e.Kind == 'x' {
 		return nil
 	}
-	return append(append([]byte{}, e.Value...), e.Ext.ser()...)
+	return append(append([]byte{}, e.value()...), e.Ext.ser()...)
 }
 
 func (e *entry) body() []byte {
@@ -188,9 +214,9 @@ func (e *entry) wire() string {
 			}
 			n = "u" + strings.Join(cs, ".")
 		}
-		return fmt.Sprintf("v,%d,%s,%s,%s,%s,%s", e.Flags, g, n, core.Hex(e.Value), extWire(e.Ext), nextWire(e.Next))
+		return fmt.Sprintf("v,%d,%s,%s,%s,%s,%s", e.Flags, g, n, e.valueWire(), extWire(e.Ext), nextWire(e.Next))
 	case 'd':
-		return fmt.Sprintf("d,%d,%s,%s,%s", e.Flags, core.Hex(e.Value), extWire(e.Ext), nextWire(e.Next))
+		return fmt.Sprintf("d,%d,%s,%s,%s", e.Flags, e.valueWire(), extWire(e.Ext), nextWire(e.Next))
 	}
 	return fmt.Sprintf("x,%d,%d,%s", e.Flags, e.Next, core.Hex(e.Value))
 }
@@ -245,6 +271,18 @@ func parseRecipe(s string) (*recipe, error) {
 		a, _ := strconv.Atoi(q[0])
 		return &ext{Attrs: byte(a), Body: core.UnHex(q[1])}
 	}
+	var perr error
+	pval := func(e *entry, s string) {
+		if strings.HasPrefix(s, "n") {
+			n, err := parseRecipe(string(core.UnHex(s[1:])))
+			if err != nil {
+				perr = err
+			}
+			e.Nested = n
+			return
+		}
+		e.Value = core.UnHex(s)
+	}
 	pnext := func(s string) int {
 		if s == "-" {
 			return -1
@@ -276,13 +314,13 @@ func parseRecipe(s string) (*recipe, error) {
 					e.Chars = append(e.Chars, rune(n))
 				}
 			}
-			e.Value = core.UnHex(f[4])
+			pval(&e, f[4])
 			e.Ext = pext(f[5])
 			e.Next = pnext(f[6])
 		case f[0] == "d" && len(f) == 5:
 			e.Kind = 'd'
 			e.Flags, _ = strconv.Atoi(f[1])
-			e.Value = core.UnHex(f[2])
+			pval(&e, f[2])
 			e.Ext = pext(f[3])
 			e.Next = pnext(f[4])
 		case f[0] == "x" && len(f) == 4:
@@ -292,6 +330,9 @@ func parseRecipe(s string) (*recipe, error) {
 			e.Value = core.UnHex(f[3])
 		default:
 			return nil, fmt.Errorf("bad entry %q", es)
+		}
+		if perr != nil {
+			return nil, perr
 		}
 		r.Entries = append(r.Entries, e)
 	}
@@ -431,8 +472,20 @@ func (r *recipe) flags() wfFlags {
 		if e.size() > 65535 {
 			f.wf = false
 		}
-		if e.Kind != 'x' && bytes.HasPrefix(e.content(), nvarSig) {
-			f.wf = false
+		if e.Kind != 'x' {
+			if e.Nested != nil {
+				// a store value: no extended header, the parent's polarity, and the four groups of
+				// conditions hold inside (at every level)
+				nf := e.Nested.flags()
+				if e.Ext != nil || e.Nested.Pol != r.Pol || !nf.wf {
+					f.wf = false
+				}
+				f.links = f.links && nf.links
+				f.fits = f.fits && nf.fits
+				f.uniq = f.uniq && nf.uniq
+			} else if bytes.HasPrefix(e.content(), nvarSig) {
+				f.wf = false
+			}
 		}
 		switch e.Kind {
 		case 'v', 'd':
@@ -527,4 +580,164 @@ func (r *recipe) flags() wfFlags {
 		seen[v.key()] = true
 	}
 	return f
+}
+
+// ---- the TREE of current variables (mirror of Spec.NStore.deepLive, computed by the forward chase
+// of `live` at every level): a value is bytes or, for a nested store, the current variables of
+// that store.
+
+type node struct {
+	GUID, Name []byte
+	Store      bool
+	Leaf       []byte // !Store
+	Kids       []node // Store
+	Erased     []byte // Store: what compaction leaves when the nested store has no current variable
+}
+
+func (r *recipe) deepLive() []node {
+	offs := make([]int, len(r.Entries))
+	at := map[int]int{}
+	o := 0
+	for i := range r.Entries {
+		offs[i] = o
+		at[o] = i
+		o += r.Entries[i].size()
+	}
+	var out []node
+	for i := range r.Entries {
+		h := &r.Entries[i]
+		if h.Kind != 'v' {
+			continue
+		}
+		cur := i
+		ok := true
+		for r.Entries[cur].Next >= 0 {
+			j, found := at[offs[cur]+r.Entries[cur].Next]
+			if !found || r.Entries[j].Kind != 'd' || j <= cur {
+				ok = false
+				break
+			}
+			cur = j
+		}
+		if !ok {
+			continue
+		}
+		n := node{GUID: r.guidOf(h), Name: h.nameText()}
+		if c := &r.Entries[cur]; c.Nested != nil {
+			n.Store = true
+			n.Kids = c.Nested.deepLive()
+			n.Erased = bytes.Repeat([]byte{r.Pol}, len(c.Nested.ser()))
+		} else {
+			n.Leaf = c.content()
+		}
+		out = append(out, n)
+	}
+	return out
+}
+
+// showTree is the canonical text of a tree of current variables, sorted at every level (same
+// format as Driver/C10.lean showDeep).
+func showTree(ns []node) string {
+	var ss []string
+	for _, n := range ns {
+		s := core.Hex(n.GUID) + "," + core.Hex(n.Name) + ","
+		if n.Store {
+			s += "{" + showTree(n.Kids) + "}"
+		} else {
+			s += fmt.Sprintf("=%d:%d", len(n.Leaf), core.FNV(n.Leaf))
+		}
+		ss = append(ss, s)
+	}
+	sort.Strings(ss)
+	if len(ss) == 0 {
+		return "-"
+	}
+	return strings.Join(ss, "/")
+}
+
+// afterCompact is the tree compaction must leave: the variables whose (top-level) name was not
+// invalidated; a nested store without current variables has become erased space (plain bytes).
+func afterCompact(ns []node, dropped map[string]bool) []node {
+	var out []node
+	for _, n := range ns {
+		if dropped != nil && dropped[string(n.Name)] {
+			continue
+		}
+		if n.Store {
+			k := afterCompact(n.Kids, nil)
+			if len(k) == 0 {
+				n = node{GUID: n.GUID, Name: n.Name, Leaf: n.Erased}
+			} else {
+				n.Kids = k
+			}
+		}
+		out = append(out, n)
+	}
+	return out
+}
+
+// shape: number of entries, and for every entry that carries a nested store with entries its shape
+func (r *recipe) shape() string {
+	var ss []string
+	for i := range r.Entries {
+		e := &r.Entries[i]
+		if e.Kind != 'x' && e.Nested != nil && len(e.Nested.Entries) > 0 {
+			ss = append(ss, e.Nested.shape())
+		} else {
+			ss = append(ss, ".")
+		}
+	}
+	return "[" + strings.Join(ss, "") + "]"
+}
+
+// checksums: what a reader must report for the extended-header checksums of a well-formed
+// recipe, computed from the grammar (independent of fiano and of the Lean model): entries with an
+// extended header whose attribute bit 0 is set store a checksum in the byte before the 16-bit size;
+// the sum over entry size, attributes and everything behind the header (signature and Next
+// excluded) must be 0 mod 256, otherwise the value that would make it so is reported.
+func (r *recipe) checksums() string {
+	var ss []string
+	for i := range r.Entries {
+		e := &r.Entries[i]
+		if e.Kind == 'x' || e.Ext == nil || e.Ext.Attrs&1 == 0 {
+			ss = append(ss, "-")
+			continue
+		}
+		b := e.ser(r.Pol)
+		sum := byte(0)
+		for k, c := range b {
+			if k >= 4 && !(k >= 6 && k <= 8) {
+				sum += c
+			}
+		}
+		stored := b[len(b)-3]
+		if sum == 0 {
+			ss = append(ss, fmt.Sprintf("%d/-", stored))
+		} else {
+			ss = append(ss, fmt.Sprintf("%d/%d", stored, byte(-sum)))
+		}
+	}
+	if len(ss) == 0 {
+		return "-"
+	}
+	return strings.Join(ss, ",")
+}
+
+// fixChecksums makes the stored checksum of some entries correct (the byte before the size field
+// of the extended header), so that both verdicts of the reader are exercised.
+func fixChecksums(rnd interface{ Intn(int) int }, r *recipe) {
+	for i := range r.Entries {
+		e := &r.Entries[i]
+		if e.Kind == 'x' || e.Ext == nil || e.Ext.Attrs&1 == 0 || len(e.Ext.Body) == 0 || rnd.Intn(2) == 0 {
+			continue
+		}
+		b := e.ser(r.Pol)
+		sum := byte(0)
+		for k, c := range b {
+			if k >= 4 && !(k >= 6 && k <= 8) {
+				sum += c
+			}
+		}
+		e.Ext.Body[len(e.Ext.Body)-1] -= sum
+	}
 }
